@@ -53,8 +53,11 @@ def mk_chunked_reader(env, st, u, cfg):
     req = mk_request_shell(env, st, u, cfg=cfg, trailers=st.alloc(HList([])),
                            peer_addr=SStr.lit(""), scheme=SStr.lit("http"),
                            limit_request_fields=SInt(z3.Int("req.limit_request_fields")),
-                           limit_request_field_size=SInt(z3.Int("req.limit_request_field_size")))
-    st.assume(z3.Int("req.limit_request_fields") >= 1, z3.Int("req.limit_request_field_size") >= 0)
+                           limit_request_field_size=SInt(z3.Int("req.limit_request_field_size")),
+                           limit_request_line=SInt(z3.Int("req.limit_request_line")),
+                           max_buffer_headers=SInt(z3.Int("req.max_buffer_headers")))
+    st.assume(z3.Int("req.limit_request_fields") >= 1, z3.Int("req.limit_request_field_size") >= 0,
+              z3.Int("req.limit_request_line") >= 0, z3.Int("req.max_buffer_headers") >= 0)
     return st.alloc(HObj("ChunkedReader", {"req": req}))
 
 
@@ -112,7 +115,8 @@ class ParseTrailers(Contract):
     def raises(self, c):
         E = errs(c)
         d = self.d0(c)
-        return [(E.NoMoreData, And(Not(And(d + 2 <= N, crlf_at(d))), f2crlf(d) == -1))] + header_raises(c) + [oserror(c)]
+        lim = z3.Int("req.max_buffer_headers")
+        return [(E.NoMoreData, And(Not(And(d + 2 <= N, crlf_at(d))), f2crlf(d) == -1, N - d <= lim))] + header_raises(c) + [oserror(c)]
 
     def exc_post(self, c):
         out = list(RI(c, c.a["unreader"]))
@@ -128,6 +132,8 @@ class ParseTrailers(Contract):
         return list(RI(c, u)) + [
             ("stream-position-is-end-of-trailer-section",
              If(And(d + 2 <= N, crlf_at(d)), pos1 == d + 2, And(X >= 0, pos1 == X + 4))),
+            # C12: a trailer section is accepted only if it (with its terminator) fits the header buffer limit - whatever the reads
+            ("accepted-trailer-section-fits-the-header-buffer-limit", Or(And(d + 2 <= N, crlf_at(d)), X - d + 3 <= z3.Int("req.max_buffer_headers"))),
         ]
 
     loops = {0: dict(anchor="while idx < 0 and (not done)", cands=[
@@ -223,10 +229,19 @@ class ParseChunkSize(Contract):
 
     def raises(self, c):
         E = errs(c)
-        return [(E.InvalidChunkSize, None), (E.NoMoreData, None)] + header_raises(c) + [oserror(c)]
+        return [(E.InvalidChunkSize, None), (E.NoMoreData, None), (E.LimitRequestLine, None)] + header_raises(c) + [oserror(c)]
 
     def exc_post(self, c):
-        return list(RI(c, c.a["unreader"]))
+        out = list(RI(c, c.a["unreader"]))
+        lim = z3.Int("req.limit_request_line")
+        q = self.q0(c, c.old)
+        if c.exc is not None and c.exc.cls.__name__ == "LimitRequestLine":
+            # C12 / C06: raised only for a chunk-size line longer than the limit (a function of the stream, not of the reads)
+            F = fcrlf(q)
+            out.append(("LimitRequestLine-only-when-the-chunk-size-line-exceeds-the-limit", And(lim > 0, Or(And(F >= 0, F - q > lim), And(F == -1, N - q > lim + 1)))))
+        if c.exc is not None and c.exc.cls.__name__ == "NoMoreData" and isinstance(c.a["data"], SNone) is False:
+            pass
+        return out
 
     def effects(self, c):
         # ghost bookkeeping for the generator protocol: where the payload of this chunk starts and how long it is
@@ -256,6 +271,7 @@ class ParseChunkSize(Contract):
                                 z3.ForAll([p], Implies(And(s <= p, p < F), And(Tsel(p) != 0, Tsel(p) != 10, Tsel(p) != 13)))))
         out = list(RI(c, u)) + [
             ("chunk-header-line-found", F >= 0),
+            ("accepted-chunk-size-line-is-within-the-line-limit", Or(z3.Int("req.limit_request_line") == 0, F - q <= z3.Int("req.limit_request_line"))),
             ("size-is-1*HEXDIG-at-line-start", And(e > q, e <= F, size.t == hexval(T, q, e), size.t >= 0)),
             ("rest-of-line-is-empty-or-BWS;ext-without-CR-LF-NUL", ext_ok),
         ]
@@ -325,7 +341,7 @@ class ParseChunked(Contract):
 
     def raises(self, c):
         E = errs(c)
-        return [(E.InvalidChunkSize, None), (E.NoMoreData, None), (E.ChunkMissingTerminator, None)] + header_raises(c) + [oserror(c)]
+        return [(E.InvalidChunkSize, None), (E.NoMoreData, None), (E.ChunkMissingTerminator, None), (E.LimitRequestLine, None)] + header_raises(c) + [oserror(c)]
 
     def post(self, c):
         g = c.st.ghost
@@ -423,7 +439,7 @@ class BodyGenNext(Contract):
         E = errs(c)
         g = c.st.obj(c.a["self"]).fields
         return [(StopIteration, g["g_rc"].t == g["g_end"].t), (E.NoMoreData, None), (E.ChunkMissingTerminator, None),
-                (E.InvalidChunkSize, None)] + header_raises(c) + [oserror(c)]
+                (E.InvalidChunkSize, None), (E.LimitRequestLine, None)] + header_raises(c) + [oserror(c)]
 
     exact_raises = False
 
@@ -516,7 +532,7 @@ class ChunkedReaderRead(Contract):
     def raises(self, c):
         E = errs(c)
         return [(ValueError, c.a["size"].t < 0), (E.NoMoreData, None), (E.ChunkMissingTerminator, None),
-                (E.InvalidChunkSize, None)] + header_raises(c) + [oserror(c)]
+                (E.InvalidChunkSize, None), (E.LimitRequestLine, None)] + header_raises(c) + [oserror(c)]
 
     def post(self, c):
         r = c.a["self"]
